@@ -1,0 +1,35 @@
+//go:build verif
+
+package denco
+
+// VerifDump exposes the internal representation of a built Router to the verification harness:
+// the BASE/CHECK cells, and per node its data and parameter names (entry 0 is the unused nil node).
+// Compiled only with the build tag verif; no existing code is touched.
+func VerifDump(rt *Router) (bc []uint32, data []interface{}, names [][]string, present []bool) {
+	bc = make([]uint32, len(rt.param.bc))
+	for i, c := range rt.param.bc {
+		bc[i] = uint32(c)
+	}
+	data = make([]interface{}, len(rt.param.node))
+	names = make([][]string, len(rt.param.node))
+	present = make([]bool, len(rt.param.node))
+	for i, nd := range rt.param.node {
+		if nd == nil {
+			continue
+		}
+		present[i] = true
+		data[i] = nd.data
+		names[i] = append([]string(nil), nd.paramNames...)
+	}
+	return bc, data, names, present
+}
+
+// VerifConstants returns the constants the model mirrors.
+func VerifConstants() map[string]int {
+	return map[string]int{
+		"ParamCharacter": int(ParamCharacter), "WildcardCharacter": int(WildcardCharacter),
+		"TerminationCharacter": int(TerminationCharacter), "SeparatorCharacter": int(SeparatorCharacter),
+		"PathParamCharacter": int(PathParamCharacter), "flagsBits": flagsBits, "checkBits": checkBits,
+		"paramTypeSingle": paramTypeSingle, "paramTypeWildcard": paramTypeWildcard,
+	}
+}
